@@ -20,7 +20,8 @@
    location of a buffer; locations are never reused (a freed buffer stays `Freed`, and reading it is
    the observable error EUaf — "reads of freed storage are observable"); temporaries are freed at
    the end of the statement and locals at function exit (the compiler: at scope exit — not
-   observable, nothing can refer to them any more); calls are statements (`Speichere f(..) in x`).
+   observable, nothing can refer to them any more); calls are statements (`Speichere f(..) in x`);
+   the returned expression of a function is evaluated over its parameters and the globals.
    For a TEMPORARY argument the elision only changes who frees the temporary (the caller's scope
    exit instead of the callee's exit); nothing else can refer to a temporary, so the model lets the
    callee own it in both modes and elides only arguments that are variables.
